@@ -271,6 +271,7 @@ class ShapeDTW(BaseClassifier):
         output : numpy array of shape =
                 [n_instances, num_classes] of probabilities
         """
+        self.check_is_fitted()
         X = check_X(X, enforce_univariate=False)
 
         # Transform the test data in the same way as the training data.
@@ -291,6 +292,7 @@ class ShapeDTW(BaseClassifier):
         -------
         output : numpy array of shape = [n_instances]
         """
+        self.check_is_fitted()
         X = check_X(X, enforce_univariate=False)
 
         # Transform the test data in the same way as the training data.
